@@ -345,9 +345,16 @@ def result_split(body, call_bb):
             continue
         ok += discr_edges(body, sw, 0)
         err += discr_edges(body, sw, 1)
+    # `let r = call(); if r.is_ok() { .. } r`: the boolean test of is_ok / is_err on the (borrowed) result
+    for c2 in body.calls():
+        if c2.name in ("is_ok", "is_err") and c2.f and c2.f["path"].startswith("std::result::Result") and not body.is_cleanup(c2.bb) and c2.args:
+            if any(r == ("call", call_bb) and all(x in ("&", "*", ".branch") for x in p) for r, p in body.resolve(c2.args[0])):
+                tr, fa = bool_split(body, c2.bb)
+                ok += tr if c2.name == "is_ok" else fa
+                err += fa if c2.name == "is_ok" else tr
     cs = body.call_at(call_bb)
     direct = False
-    if cs is not None:
+    if cs is not None and not ok and not err:
         if cs.dest["l"] == 0:
             direct = True
         else:
@@ -387,16 +394,70 @@ def option_split(body, call_bb):
         else:
             none += discr_edges(body, sw, 0)
             some += discr_edges(body, sw, 1)
+    for c2 in body.calls():
+        if c2.name in ("is_some", "is_none") and c2.f and c2.f["path"].startswith("std::option::Option") and not body.is_cleanup(c2.bb) and c2.args:
+            if any(r == ("call", call_bb) and all(x in ("&", "*") for x in p) for r, p in body.resolve(c2.args[0])):
+                tr, fa = bool_split(body, c2.bb)
+                some += tr if c2.name == "is_some" else fa
+                none += fa if c2.name == "is_some" else tr
     return some, none
+
+
+def _bool_polarity(body, op, call_bb, depth=0):
+    """+1 / -1 if operand op is the boolean result of call_bb / its negation, seen through copies, `Ok(..)`/`Some(..)`
+    wrappers, `?` and multiply assigned locals (all alternatives must agree); None otherwise"""
+    if depth > 6:
+        return None
+    pols = set()
+    for root, path in body.resolve(op):
+        if root == ("call", call_bb) and all(x in (".branch", " as Continue", ".0", " as Ok", " as Some", ".unwrap") for x in path):
+            pols.add(1)
+        elif root[0] == "rv" and not path:
+            rv = body.blocks[root[1]]["st"][root[2]]["rv"]
+            if rv["r"] == "un" and rv.get("op") == "Not":
+                p = _bool_polarity(body, rv["a"], call_bb, depth + 1)
+                pols.add(-p if p else None)
+            else:
+                pols.add(None)
+        elif root[0] == "infeasible":
+            continue
+        else:
+            pols.add(None)
+    if len(pols) == 1 and None not in pols:
+        return pols.pop()
+    return None
 
 
 def bool_split(body, call_bb):
     tr, fa = [], []
+    seen = set()
     for sw, mode in call_result_switches(body, call_bb):
         if mode != "bool":
             continue
+        seen.add(sw)
         tr += edges_of_value(body, sw, True)
         fa += edges_of_value(body, sw, False)
+    # the same value tested after it travelled through a negation and/or a Result/Option wrapper (a helper returning
+    # `Ok(!list.is_empty())`, tested by its caller after `?`)
+    for sw, blk in enumerate(body.blocks):
+        t = blk["term"]
+        if t["t"] != "switch" or sw in seen or body.is_cleanup(sw):
+            continue
+        pol = _bool_polarity(body, t["on"], call_bb)
+        if pol is None:
+            continue
+        zero = [(sw, tgt) for v, tgt in t["targets"] if v == 0]
+        nonzero = [(sw, tgt) for v, tgt in t["targets"] if v != 0]
+        if zero:
+            nonzero = nonzero + [(sw, t["otherwise"])]
+        else:
+            zero = [(sw, t["otherwise"])]
+        if pol > 0:
+            tr += nonzero
+            fa += zero
+        else:
+            tr += zero
+            fa += nonzero
     return tr, fa
 
 
@@ -533,8 +594,46 @@ def result_uses(body, call_bb, _depth=0, _local=None):
 # ------------------------------------------------------------------------------------------
 
 
+def _raw_derives(body, x, call_bbs, seen, depth=0):
+    """definition-chain walk that does not look through 'transparent' std calls (iter, deref, ..):
+    does operand/place x derive from the result of one of the calls?"""
+    pl = x if ("l" in x and "p" in x) else op_place(x)
+    if pl is None or depth > 30:
+        return False
+    l = pl["l"]
+    if l in seen:
+        return False
+    seen.add(l)
+    for d in body.defs().get(l, []):
+        if d[0] == "call":
+            if d[1] in call_bbs:
+                return True
+            for a in d[2]["args"]:
+                if _raw_derives(body, a, call_bbs, seen, depth + 1):
+                    return True
+        else:
+            rv = d[3]["rv"]
+            ops = []
+            if rv["r"] in ("use", "cast", "repeat", "wrap_binder"):
+                ops = [rv["o"]]
+            elif rv["r"] in ("ref", "rawptr", "discr"):
+                ops = [rv["pl"]]
+            elif rv["r"] == "agg":
+                ops = rv["fields"]
+            elif rv["r"] == "bin":
+                ops = [rv["a"], rv["b"]]
+            elif rv["r"] == "un":
+                ops = [rv["a"]]
+            for o in ops:
+                if _raw_derives(body, o, call_bbs, seen, depth + 1):
+                    return True
+    return False
+
+
 def tainted_by_call(body, x, call_bbs, _depth=0, _seen=None):
     call_bbs = set(call_bbs)
+    if _depth == 0 and _raw_derives(body, x, call_bbs, set()):
+        return True
     _seen = _seen if _seen is not None else set()
     for root, path in body.resolve(x):
         if root[0] == "call":
